@@ -161,7 +161,8 @@ func c20Build(thorough bool) *c20Alphabet {
 	// same conversation from another client port: differs only in the source port
 	a.add("t4'.ack>", "t4:8000", false, true, pkTCP, 40001, 8000, c20ACK, c20In, 41)
 	// same hosts, other destination port: a different row
-	a.add("t4.8001.ack>", "t4:8001", false, true, pkTCP, 40002, 8001, c20ACK, c20In, 77)
+	// (reported length 0: a flow whose packets carry no bytes still has traffic - packets - in its interval)
+	a.add("t4.8001.ack>", "t4:8001", false, true, pkTCP, 40002, 8001, c20ACK, c20In, 0)
 	// v4 DNS: common service port, the parser drops the client port already
 	a.add("u4.dns>", "u4:53", false, true, pkUDP, 50000, 53, 0, c20In, 70)
 	a.add("u4.dns<", "u4:53", false, false, pkUDP, 53, 50000, 0, c20Out, 130)
